@@ -343,3 +343,38 @@ func rulePositionNeedsSpatial(c *Ctx) {
 	}
 	c.stat("positional_uses_of_the_previous_object", n)
 }
+
+func init() {
+	register(&Rule{ID: "R20.neighbour-scan-complete", Props: []string{"C20"}, Floor: 1,
+		Text: "'exactly the neighbours inside the radius': the per-candidate callback of the roaming fence's neighbour search (found by role: the literal handed to a Collection search method in fenceMatchNearbys) returns true on every path — it may skip a candidate but never ends the search; the order in which an index hands out candidates (by bounding box) is not the order of the distance the radius test uses (centre to centre), so stopping at the first candidate beyond the radius hides nearer ones behind an object with a large extent",
+		Run:  ruleNeighbourScanComplete})
+}
+
+func ruleNeighbourScanComplete(c *Ctx) {
+	fn, lit, _, _ := nearbysCallback(c)
+	if fn == nil || lit == nil {
+		c.und("anchors", 0, "the neighbour search callback of fenceMatchNearbys was not found")
+		return
+	}
+	info := fn.Info()
+	var stop *ast.ReturnStmt
+	n := 0
+	inspectNoLit(lit.Body, func(x ast.Node) bool {
+		if r, ok := x.(*ast.ReturnStmt); ok {
+			n++
+			if len(r.Results) != 1 || boolConst(info, r.Results[0]) != '1' {
+				stop = r
+			}
+		}
+		return true
+	})
+	key := "fenceMatchNearbys/callback-never-stops"
+	switch {
+	case n == 0:
+		c.und(key, lit.Pos(), "the callback has no return statement")
+	case stop != nil:
+		c.bad(key, stop.Pos(), "the neighbour search can be ended by its per-candidate callback (%s): candidates the index has not handed out yet are never examined, so neighbours inside the radius are missing from 'nearby' and from the set 'faraway' is computed from", "return "+exprStr(stop.Results[0]))
+	default:
+		c.ok(key, lit.Pos(), true, "all %d returns of the callback are `return true`: every candidate is examined", n)
+	}
+}
